@@ -200,6 +200,9 @@ func c16SensorInfo(c c16DCMI) (string, string, string) {
 		// the standard family "yielded an error", so the DCMI family decides
 		cfg.DCMISensors = map[byte][]uint16{ipmiEnt[0]: ids}
 		cfg.DCMISensorErr[ipmiEnt[1+c.ErrEnt%2]] = byte(0xC9)
+		if c.ErrCode != 0 {
+			cfg.DCMISensorErr[ipmiEnt[1+c.ErrEnt%2]] = byte(c.ErrCode)
+		}
 		want = [3][]uint16{}
 		for e := 0; e < 3; e++ {
 			cfg.DCMISensors[dcmiEnt[e]] = []uint16{uint16(0xA000 + e), uint16(0xA100 + e)}
